@@ -63,8 +63,17 @@ pub fn gen_entries(rng: &mut Rng, t: &Tables) -> Vec<(Pat, String, Vec<i32>)> {
         };
         for p in chosen {
             let n_files = rng.range(1, 6);
+            // sometimes the files of a pattern form a numbered family (natural-sort territory)
+            let family: Option<&str> = if rng.chance(1, 5) { Some(*rng.pick(&["Pool", "v", "", "Token_"])) } else { None };
             for _ in 0..n_files {
-                let f = rng.pick(FILE_NAMES).to_string();
+                let f = match family {
+                    Some(prefix) => {
+                        let n = *rng.pick(&[1u32, 2, 3, 9, 10, 11, 20, 100]);
+                        let suffix = *rng.pick(&["", "", "", "Mock", "_fixed", "a"]);
+                        format!("{}{}{}.sol", prefix, n, suffix)
+                    }
+                    None => rng.pick(FILE_NAMES).to_string(),
+                };
                 let n_lines = rng.range(1, 8);
                 let mut lines: Vec<i32> = (0..n_lines)
                     .map(|_| match rng.below(10) {
